@@ -19,6 +19,7 @@ import (
 // Pred is what the model says one call must return.
 type Pred struct {
 	Errs    []sipsp.ErrorHdr // acceptable verdicts (one entry unless the model is deliberately imprecise)
+	AnyErr  bool             // any failure verdict is acceptable too (the property fixes "rejected", not the error code)
 	Ret     int              // expected returned offset relative to the message start (-1: not predicted)
 	BodyLen int              // expected body length on success (-1: not predicted)
 	Why     string
@@ -61,17 +62,19 @@ func Predict(spec *gen.MsgSpec, flags uint, noMore bool, avail int) Pred {
 	if avail < need {
 		p := Pred{Ret: -1, BodyLen: -1, Why: fmt.Sprintf("header block incomplete (%d of %d bytes)", avail, need)}
 		if noMore {
+			// end of input inside the header block: a failure, whatever its code
 			p.Errs = []sipsp.ErrorHdr{sipsp.ErrHdrTrunc}
+			p.AnyErr = true
 		} else {
 			p.Errs = []sipsp.ErrorHdr{sipsp.ErrHdrMoreBytes}
 		}
 		if huge {
-			p.Errs = append(p.Errs, sipsp.ErrHdrNumTooBig) // may already have been seen
+			p.AnyErr = true // the out-of-range Content-Length may already have been seen
 		}
 		return p
 	}
 	if huge {
-		return Pred{Errs: []sipsp.ErrorHdr{sipsp.ErrHdrNumTooBig}, Ret: -1, BodyLen: -1, Why: "declared Content-Length outside the documented range"}
+		return Pred{Errs: []sipsp.ErrorHdr{sipsp.ErrHdrNumTooBig}, AnyErr: true, Ret: -1, BodyLen: -1, Why: "declared Content-Length outside the documented range: must be rejected"}
 	}
 	have := avail - h
 	if flags&fSkipBody != 0 {
@@ -109,11 +112,14 @@ func C06Call(spec *gen.MsgSpec, cfg sut.Cfg, m *sipsp.PSIPMsg, buf []byte, start
 			okv = true
 		}
 	}
+	if p.AnyErr && sut.IsError(err) && err != sipsp.ErrHdrNoCLen {
+		okv = true
+	}
 	if !okv {
 		return fmt.Sprintf("flags=%d noMore=%v, %d bytes available from message start: model expects verdict %v (%s) but the parser returned (%d,%d %q)",
 			cfg.Flags, noMore, avail, p.Errs, p.Why, ret, err, err)
 	}
-	if err == sipsp.ErrHdrMoreBytes || err == sipsp.ErrHdrTrunc || err == sipsp.ErrHdrNumTooBig {
+	if err == sipsp.ErrHdrMoreBytes || (sut.IsError(err) && err != sipsp.ErrHdrNoCLen) {
 		return ""
 	}
 	if p.Ret >= 0 && ret != start+p.Ret {
